@@ -10,7 +10,10 @@ def main():
     c = vlib.Check("C14")
     c.rule = hashmap.RULE
     c.trusted = ["Coq 8.16.1 kernel (coqc; vm_compute only in Examples)"] + hashmap.TRUSTED
-    c.assumptions = ["hash is any total function (Section variable)", "insert only of absent keys (documented precondition)",
+    c.assumptions = ["hash is any total function OF THE KEY VALUE, fixed when the map is constructed (Section variable): the map uses its own "
+                     "copy of the hasher, and the hasher gives one result per key value whatever C++ integer type get<KeyCompatible>() is "
+                     "handed -- both are checked by the harness (caller's hasher re-seeded / temporary; get() through int, short, long)",
+                     "insert only of absent keys (documented precondition)",
                      "keys compared with ==; element copy/move behave as value transfer"]
     c.kind_filter = lambda k: k not in vlib.LIFETIME_KINDS     # lifetime/allocation kinds belong to C16
     ptrgen.run(c, ["hashmap"])    # pointer-level definitions re-translated from the current source (translator tie)
